@@ -62,8 +62,11 @@ func (s sfStandIn) Format(st fmt.State, verb rune) {
 // declaredSafe: the leaf kind is declared safe under the configuration.
 func declaredSafe(k string, reg map[string]bool) bool {
 	switch k {
-	case "SafeString", "SafeInt", "SafeUint", "SafeFloat", "SafeRune", "svstr", "svint", "svfloat", "svsstringer", "safe", "svmap", "svslice", "SafeBytes":
+	case "SafeString", "SafeInt", "SafeUint", "SafeFloat", "SafeRune", "svstr", "svint", "svfloat", "svsstringer", "safe", "svmap", "svslice", "SafeBytes", "embsafe":
 		return true
+	}
+	if k == "pregstruct" {
+		return reg["regstruct"]
 	}
 	return reg[k]
 }
